@@ -401,6 +401,19 @@ def check_listing(ctx, path, label, ref, vk, skip, case, base=None, indices=None
                     continue
                 t = mine[name]
                 cmp_.table(i, name, tab, t, vk)
+                # tables are also values one computes with (differences between runs, sums): an operand is still the
+                # table of the file afterwards
+                if i in (0, 1) and not skip and tab.num_rows:
+                    with ctx.guard(case, where='table-arithmetic') as ga:
+                        d = tab - tab
+                        s2 = tab + tab
+                        ctx.count('table_arithmetic_checks')
+                        del d, s2          # (what the results hold is not this property's matter: tables may hold NaN)
+                    if ga.raised is None:
+                        bad0 = cmp_.bad
+                        cmp_.table(i, name, tab, t, vk)
+                        if cmp_.bad > bad0:
+                            cmp_.violation('table-changed-by-arithmetic:%s:%s' % (sim, name), 'result %d table %s no longer holds the printed numbers after being an operand of - and +' % (i, name))
                 # column names against the header line
                 if i == 0 and not skip:
                     hc = header_columns(t)
